@@ -53,8 +53,22 @@ def item_check(si, mult, named, with_units, two, x, s, arm):
     reset_global_state()
     (ci, an) = ACTIVE_SITES[si]
     S = ITEM_SETS[ci]
+    # named: False/True, or a mode 0..4: 0 no name, 1 named at construction, 2 named after construction, 3 renamed
+    # after construction, 4 name removed after construction (set_name is a public attribute of the set)
+    if named is True or named == 1:
+        (init_name, late, named) = ('SN', False, True)
+    elif named is False or named == 0:
+        (init_name, late, named) = (None, False, False)
+    elif named == 2:
+        (init_name, late, named) = (None, True, True)
+    elif named == 3:
+        (init_name, late, named) = ('OLD', True, True)
+    else:
+        (init_name, late, named) = ('OLD', True, False)
     with untraced():                      # construction from concrete arguments only
-        parent = S(set_name='SN' if named else None)
+        parent = S(set_name=init_name)
+        if late:
+            parent.set_name = 'SN' if named else None
         it = make_item(S, 'OBJ', parent=parent, origin=1)
         other = make_item(S, 'OBJ', parent=parent, origin=1) if two else None     # same name: copy number 1
         a = getattr(it, an)
@@ -166,19 +180,19 @@ def set_struct_check(ci, named, two, si):
     return item_check(sites[si % len(sites)], 1, named, False, two, 1, 'a', True)
 
 
-def ob_set_struct(ci: int, named: bool, two: bool, si: int) -> int:
+def ob_set_struct(ci: int, named: int, two: bool, si: int) -> int:
     """
     pre: 0 <= ci < N_SETS and ci % SHARD_N == SHARD_I
-    pre: 0 <= si <= 1
+    pre: 0 <= si <= 1 and 0 <= named <= 4
     post: _ == 0
     """
     return set_struct_check(ci, named, two, si)
 
 
-def reach_set_struct(ci: int, named: bool, two: bool, si: int) -> int:
+def reach_set_struct(ci: int, named: int, two: bool, si: int) -> int:
     """
     pre: 0 <= ci < N_SETS and ci % SHARD_N == SHARD_I
-    pre: 0 <= si <= 1
+    pre: 0 <= si <= 1 and 0 <= named <= 4
     post: _ != 0
     """
     return set_struct_check(ci, named, two, si)
